@@ -41,8 +41,8 @@ NProgs == Len(Progs)
 
 None == [kind |-> "none", i |-> 0, n |-> 0]
 
-VARIABLES p, toks, base, m
-vars == << p, toks, base, m >>
+VARIABLES p, toks, base, plain, m
+vars == << p, toks, base, plain, m >>
 
 ---------------------------------------------------------------------------
 (* the vocabulary of inserted tokens                                        *)
@@ -125,10 +125,11 @@ CharLevel(mu) == mu.kind \in {"delquote", "insbyte", "cut"}
 Init == /\ p \in 1..NProgs
         /\ toks = TokensOf(Chars(Bytes(p)))
         /\ base = CertOfTokens(toks)
+        /\ plain = Faithful(Chars(Bytes(p)))      \* no #if regions, no escapes on # lines: the token list is the whole story
         /\ m = None
 Next == /\ m = None
         /\ m' \in TokMutations(p, toks) \cup CharMutations(p)
-        /\ UNCHANGED << p, toks, base >>
+        /\ UNCHANGED << p, toks, base, plain >>
 Spec == Init /\ [][Next]_vars
 
 \* One evaluation per state: the mutant is built and judged, the record is exported, and two laws are checked on it:
@@ -140,10 +141,10 @@ Judged ==
        IN  PrintT("MUT " \o ToJson([id |-> Progs[p].id, kind |-> m.kind, i |-> m.i, n |-> m.n,
                                      b |-> j.b, c |-> j.c, r |-> j.r, f |-> j.f]))
   ELSE LET tl == Apply(toks, m)
-           cs == CertOfTokens(tl)
+           cs == IF plain THEN CertOfTokens(tl) ELSE {}
            ct == SetToSeq3(cs)
        IN  /\ PrintT("MUT " \o ToJson([id |-> Progs[p].id, kind |-> m.kind, i |-> m.i, n |-> m.n,
                                         u |-> Unscan(tl), c |-> ct, r |-> ct, f |-> <<>>]))
            /\ (m = None => cs = {})
-           /\ ((m.kind \in {"delbr", "insbr"} /\ base = {}) => "brackets" \in cs)
+           /\ ((m.kind \in {"delbr", "insbr"} /\ base = {} /\ plain) => "brackets" \in cs)
 =============================================================================
